@@ -18,7 +18,7 @@ import (
 // byte-stable, ids and hashes survive the round trip, a wrong id is rejected, a decoded
 // transaction "has a reward" exactly when it has no input.
 
-var oddAddresses = []string{"", "0xABCdef", "addr<script>&\"q\"\\", "ünïcödé-адрес-住所", "line\nbreak\ttab", " sep ", "a\x7fb", "nul\x00byte", "emoji😀"}
+var oddAddresses = []string{"", "0xABCdef", "0xabcdefabcdefabcdefabcdefabcdefabcdefabcd", "0XABCDEFABCDEFABCDEFABCDEFABCDEFABCDEFABCD", "abcdef0123456789abcdef0123456789abcdef01", "0x000000000000000000000000abcdefabcdefabcdefabcdefabcdefabcdefabcdefabcd", "addr<script>&\"q\"\\", "ünïcödé-адрес-住所", "line\nbreak\ttab", " sep ", "a\x7fb", "nul\x00byte", "emoji😀"}
 
 func decodeTxs(text []byte) ([]*ledger.Transaction, error) {
 	var l []*ledger.Transaction
